@@ -824,11 +824,33 @@ pub fn replace(input_string_value: &Value, pattern_string_value: &Value, replace
   if let Value::String(input_string) = input_string_value {
     if let Value::String(pattern_string) = pattern_string_value {
       if let Value::String(replacement_string) = replacement_string_value {
-        // Rust implementation is eager when parsing matching groups, so place numbers in square brackets
-        let repl = if let Ok(rg) = Regex::new("\\$([1-9][0-9]*)") {
-          rg.replace_all(replacement_string.as_str(), "$${${1}}").to_string()
-        } else {
-          replacement_string.clone()
+        // Rust implementation is eager when parsing matching groups, so place numbers in curly brackets;
+        // a reference takes as many digits as name a group of the pattern, the digits that follow are literal
+        let repl = |re: &Regex| -> String {
+          let groups = re.captures_len() - 1;
+          let chars: Vec<char> = replacement_string.chars().collect();
+          let mut result = String::new();
+          let mut i = 0;
+          while i < chars.len() {
+            if chars[i] == '$' && i + 1 < chars.len() && chars[i + 1].is_ascii_digit() {
+              let mut number = 0_usize;
+              let mut j = i + 1;
+              while j < chars.len() && chars[j].is_ascii_digit() {
+                let next = number * 10 + chars[j].to_digit(10).unwrap_or(0) as usize;
+                if j > i + 1 && next > groups {
+                  break;
+                }
+                number = next;
+                j += 1;
+              }
+              result.push_str(&format!("${{{}}}", number));
+              i = j;
+            } else {
+              result.push(chars[i]);
+              i += 1;
+            }
+          }
+          result
         };
         // check and use flags
         if let Value::String(flags_string) = flags_string_value {
@@ -858,17 +880,17 @@ pub fn replace(input_string_value: &Value, pattern_string_value: &Value, replace
           }
           if flags.is_empty() {
             if let Ok(re) = Regex::new(&patt) {
-              let result = re.replace_all(input_string.as_str(), repl.as_str()).trim().to_string();
+              let result = re.replace_all(input_string.as_str(), repl(&re).as_str()).trim().to_string();
               return Value::String(result);
             }
           } else if let Ok(re) = Regex::new(format!("(?{}){}", flags, patt).as_str()) {
-            let result = re.replace_all(input_string.as_str(), repl.as_str()).trim().to_string();
+            let result = re.replace_all(input_string.as_str(), repl(&re).as_str()).trim().to_string();
             return Value::String(result);
           }
         }
         // replace without any flags
         if let Ok(re) = Regex::new(pattern_string) {
-          let result = re.replace_all(input_string.as_str(), repl.as_str()).trim().to_string();
+          let result = re.replace_all(input_string.as_str(), repl(&re).as_str()).trim().to_string();
           return Value::String(result);
         }
       }
